@@ -248,8 +248,12 @@ def run_sim(argv, files, chooser, capacity=65536, feeder=True, step_cap=K.STEP_C
     simfs._STDOUT_BUF = out_buf
     res = RunResult()
 
+    saved_argv = sys.argv
+
     def main_task():
-        cli.main(list(argv))
+        # the process entry point, as `python -m cutadapt` and the console script run it
+        sys.argv = ["cutadapt"] + list(argv)
+        sys.exit(cli.main_cli())
 
     try:
         try:
@@ -264,6 +268,7 @@ def run_sim(argv, files, chooser, capacity=65536, feeder=True, step_cap=K.STEP_C
                 pass
             res.stderr = simfs.to_sim(sys.stderr.getvalue())
             res.progress = "".join(getattr(sys.stderr, "progress", []))
+            sys.argv = saved_argv
             stdin_objects = list(kern.images.stdin_of.values()) + [sys.stdin]
             sys.stdin, sys.stdout, sys.stderr = saved_std
             _close_stdin(stdin_fd, stdin_ident, stdin_objects)
